@@ -95,10 +95,15 @@ let handle toks =
             Reader_ext.ch_eligible = eligible codec plain cd.ctyp }) rg) table in
       let names = List.map (fun c -> c.cname) cols in
       let rec index_of x l i = match l with [] -> failwith "no-such-column" | y :: t -> if x = y then i else index_of x t (i + 1) in
+      (* names are resolved to file column indices before the modelled code runs (carquet_batch_reader_create ->
+         carquet_schema_find_column: exact match of the whole name, first match); an unknown name is COLUMN_NOT_FOUND *)
       let pcols =
-        if proj = "all" then List.mapi (fun i _ -> i) cols
-        else if String.sub proj 0 2 = "i:" then List.map int_of_string (split_on ',' (String.sub proj 2 (String.length proj - 2)))
-        else List.map (fun nm -> index_of nm names 0) (split_on ',' (String.sub proj 2 (String.length proj - 2))) in
+        try
+          if proj = "all" then List.mapi (fun i _ -> i) cols
+          else if String.sub proj 0 2 = "i:" then List.map int_of_string (split_on ',' (String.sub proj 2 (String.length proj - 2)))
+          else List.map (fun nm -> index_of nm names 0) (split_on ',' (String.sub proj 2 (String.length proj - 2)))
+        with Failure _ -> [-1] in
+      if pcols = [-1] then "ERR create 61" else
       let bits l = if l = [] then "-" else String.concat "" (List.map (fun b -> if b then "1" else "0") l) in
       let vals l = if l = [] then "-" else String.concat "." (List.map (fun v -> if v = "" then "-" else v) l) in
       (match Reader_ext.batches garbage true true m file (List.map nat_of_int pcols) (z_of_int (int_of_string bs)) with
